@@ -96,31 +96,309 @@ Proof.
   { apply (head_first ht h th (tb ++ td) Hht HPh Gh). intros Eh E0. destruct Hb as [(_ & [C|C] & _) | (ti & tl & Gi & _ & ->)]; [congruence | congruence |].
     rewrite <- app_assoc. now rewrite (tok_hd t_if ti _ Gi) by discriminate. }
   destruct Hfirst as [F1 F0]. unfold m_rule. fold (m_head (hd 0 (th ++ tb ++ td))).
-  eapply reads_eff; [eapply reads_bind; [apply (r_head ht h th Hht HPh Gh _ F1 F0) | cbv beta iota |] | ].
-  - destruct Hb as [(-> & _ & ->) | (ti & tl & Gi & Gl & ->)].
-    + (* no body *)
-      cbn [app]. eapply (reads_bind0 _ _ td false); [apply (reads_tok_absent 58 [45]); discriminate | cbv beta iota | ].
-      * eapply (reads_bind0 _ _ td); [apply reads_ret | cbv beta | intros tail _; exact I].
+  destruct Hb as [(-> & _ & ->) | (ti & tl & Gi & Gl & ->)].
+  - (* no body *)
+    eapply reads_eff; [eapply reads_bind; [apply (r_head ht h th Hht HPh Gh _ F1 F0) | cbv beta iota |] | ].
+    + cbn [app]. eapply (reads_bind0 _ _ td false); [apply (reads_tok_absent 58 [45]); discriminate | cbv beta iota | ].
+      * eapply (reads_bind0 _ _ td); [apply (reads_ret _ (fun _ => True)) | cbv beta | intros tail _; exact I].
         eapply reads_eq; [eapply reads_bind; [apply (r_tok _ _ true Gd) | apply reads_emit | intros tail Ht; rewrite app_nil_l; exact (okS_nws _ Ht)] | now rewrite app_nil_r].
-      * intros tail _. rewrite (tok_hd t_dot td tail Gd) by discriminate. discriminate.
-    + (* ":-" literals *)
-      rewrite <- app_assoc. eapply reads_bind; [apply (r_tok _ _ false Gi) | cbv beta iota | ].
+      * intros tail _. cbv beta. rewrite (tok_hd t_dot td tail Gd) by discriminate. discriminate.
+    + intros tail Ht. right. cbn [app]. now rewrite (tok_hd t_dot td tail Gd) by discriminate.
+    + reflexivity.
+  - (* ":-" literals *)
+    eapply reads_eff; [eapply reads_bind; [apply (r_head ht h th Hht HPh Gh _ F1 F0) | cbv beta iota |] | ].
+    + rewrite <- app_assoc. eapply reads_bind; [apply (r_tok _ _ false Gi) | cbv beta iota | ].
       * eapply reads_bind; [ | cbv beta | ].
         -- apply (reads_bind_peek _ (fun c => is_digit c = false /\ c <> 45) tl (CRule ht h b) [] (fun tail => hd 0 tail = 46)).
            ++ intros c (Hd & H45). rewrite Hd. destruct (Z.eqb_spec c 45); [contradiction|]. cbn [negb andb].
               eapply reads_eff; [eapply reads_eq; [eapply reads_bind; [apply (r_lits b tl HPb Gl) | apply reads_ret | ] | now rewrite app_nil_r] | reflexivity].
               intros tail Ht. rewrite app_nil_l. split; [unfold pun; rewrite Ht; repeat split; discriminate | rewrite Ht; discriminate].
            ++ intros tail Ht. destruct b as [|x r].
-              ** simpl in Gl. subst tl. cbn [app]. rewrite Ht. repeat split; discriminate.
+              ** simpl in Gl. subst tl. cbn [app]. rewrite Ht. split; [split; [reflexivity | discriminate] | unfold nws; rewrite Ht; reflexivity].
               ** pose proof (lits_hd (x :: r) tl tail HPb Gl ltac:(discriminate)) as Hl.
                  destruct (lower_facts _ Hl) as (A1 & A2 & A3 & _). repeat split; assumption.
         -- eapply reads_eq; [eapply reads_bind; [apply (r_tok _ _ true Gd) | apply reads_emit | intros tail Ht; rewrite app_nil_l; exact (okS_nws _ Ht)] | now rewrite app_nil_r].
-        -- intros tail Ht. now rewrite (tok_hd t_dot td tail Gd) by discriminate.
+        -- intros tail Ht. cbv beta. now rewrite (tok_hd t_dot td tail Gd) by discriminate.
       * intros tail Ht. destruct b as [|x r].
         -- simpl in Gl. subst tl. cbn [app]. apply (tok_nws t_dot); [exact Gd | discriminate | reflexivity].
         -- unfold nws. rewrite <- app_assoc. apply lower_nws. apply (lits_hd (x :: r)); [exact HPb | exact Gl | discriminate].
-  - intros tail Ht. destruct Hb as [(-> & _ & ->) | (ti & tl & Gi & Gl & ->)].
-    + right. cbn [app]. now rewrite (tok_hd t_dot td tail Gd) by discriminate.
-    + left. rewrite <- !app_assoc. now rewrite (tok_hd t_if ti _ Gi) by discriminate.
+    + intros tail Ht. left. rewrite <- !app_assoc. now rewrite (tok_hd t_if ti _ Gi) by discriminate.
+    + reflexivity.
+Qed.
+
+(* ---------- #output terms ---------- *)
+Lemma idchar_not13 c : is_idchar c = true -> c <> 13 /\ is_ws c = false.
+Proof. unfold is_idchar, is_alnum, is_lower, is_upper, is_digit, is_ws. lia. Qed.
+
+Lemma r_ident_loop r : forall c sym fuel, is_idchar c = true -> forallb is_idchar r = true -> (length r < fuel)%nat ->
+  reads (m_ident_loop fuel sym) (c :: r) (sym ++ c :: r) [] (fun tail => is_idchar (hd 0 tail) = false).
+Proof.
+  induction r as [|d r IH]; intros c sym fuel Hc Hr Hf tail ln ac Ht; (destruct fuel as [|fu]; [simpl in Hf; lia|]);
+    cbn [m_ident_loop app]; unfold bind; destruct (idchar_not13 c Hc) as [C13 _].
+  - destruct (get_plain c tail ln ac C13) as [ln1 E1]. rewrite E1. rewrite peek_false.
+    unfold is_idchar in Ht. rewrite Ht. eexists. reflexivity.
+  - cbn [forallb] in Hr. apply andb_true_iff in Hr. destruct Hr as [Hd Hr].
+    destruct (get_plain c ((d :: r) ++ tail) ln ac C13) as [ln1 E1]. cbn [app] in E1. rewrite E1. rewrite peek_false. cbn [hd].
+    unfold is_idchar in Hd. rewrite Hd.
+    destruct (IH d (sym ++ [c]) fu Hd Hr ltac:(simpl in Hf; lia) tail ln1 ac Ht) as [ln2 E2]. cbn [app] in E2. rewrite E2.
+    rewrite <- app_assoc. eexists. reflexivity.
+Qed.
+
+Lemma r_str_loop b : forall quoted sym fuel, str_ok quoted b = true -> (length b < fuel)%nat ->
+  reads (m_str_loop fuel quoted sym) b (sym ++ b) [] (fun tail => hd 0 tail = 34).
+Proof.
+  induction b as [|c b IH]; intros quoted sym fuel Hs Hf tail ln ac Ht; (destruct fuel as [|fu]; [simpl in Hf; lia|]);
+    cbn [m_str_loop app]; unfold bind; rewrite peek_false.
+  - cbn [str_ok] in Hs. apply negb_true_iff in Hs. subst quoted. rewrite Ht. change (negb (34 =? 0) && (negb (34 =? 34) || false)) with false.
+    rewrite app_nil_r. eexists. reflexivity.
+  - cbn [str_ok] in Hs. apply andb_true_iff in Hs. destruct Hs as [Hs H4]. apply andb_true_iff in Hs. destruct Hs as [Hs H3].
+    apply andb_true_iff in Hs. destruct Hs as [H1 H2]. cbn [hd].
+    assert (E : negb (c =? 0) && (negb (c =? 34) || quoted) = true).
+    { rewrite H1. cbn [andb]. destruct (c =? 34), quoted; try reflexivity. discriminate H3. }
+    rewrite E. destruct (get_plain c (b ++ tail) ln ac ltac:(lia)) as [ln1 E1]. rewrite E1.
+    destruct (IH (negb quoted && (c =? 92)) (sym ++ [c]) fu H4 ltac:(simpl in Hf; lia) tail ln1 ac Ht) as [ln2 E2]. rewrite E2.
+    rewrite <- app_assoc. eexists. reflexivity.
+Qed.
+
+Definition ok_term (tail : list Z) : Prop := pun tail /\ hd 0 tail <> 40.
+
+Lemma r_term n txt : term_ok n -> G_term n txt -> reads m_term txt n [] ok_term.
+Proof.
+  intros Hn (w & Hw & ->) tail ln ac (Hp & H40). unfold m_term, bind at 1. rewrite peek_false.
+  destruct (follow w tail Hw Hp) as [F1 F2].
+  destruct Hn as [(c & r & -> & Hc & Hr) | (b & -> & Hb)].
+  - cbn [app hd]. rewrite Hc.
+    assert (Hidc : is_idchar c = true) by (unfold is_idchar, is_alnum; destruct (is_lower c); [reflexivity|]; cbn [orb] in *; now rewrite Hc, orb_true_r).
+    unfold bind, remaining. cbn [str rest].
+    destruct (r_ident_loop r c [] (S (length (c :: (r ++ w ++ tail)))) Hidc Hr ltac:(cbn [length]; rewrite !app_length; lia) (w ++ tail) ln ac) as [ln1 E1].
+    { unfold is_idchar. rewrite F1. destruct (Z.eqb_spec (hd 0 (w ++ tail)) 95); [contradiction | reflexivity]. }
+    cbn [app] in E1. rewrite <- (app_assoc r w tail). rewrite E1.
+    destruct (skipws_run w tail ln1 ac Hw (pun_nws _ Hp)) as [ln2 E2]. rewrite E2.
+    change t_lpar with [40]. rewrite mtok_absent by (auto; discriminate). unfold ret at 1.
+    unfold skipws, on_str. cbn [str acc]. rewrite a_skipws_nws by now apply pun_nws. eexists. reflexivity.
+  - cbn [app hd]. change (is_lower 34 || (34 =? 95)) with false. cbv iota. change (34 =? 34) with true. cbv iota.
+    unfold m_str, bind, on_str. cbn [str acc]. change t_quote with [34].
+    rewrite <- !app_assoc. change (34 :: b ++ [34] ++ w ++ tail) with ([34] ++ b ++ [34] ++ w ++ tail). rewrite a_match_tok_yes.
+    unfold require, remaining. cbn [str rest].
+    destruct (r_str_loop b false ([] ++ [34]) (S (length (b ++ [34] ++ w ++ tail))) Hb ltac:(rewrite app_length; lia) ([34] ++ w ++ tail) ln ac eq_refl) as [ln1 E1].
+    rewrite E1.
+    destruct (reads_tok [34] w true Hw tail ln1 ([] ++ ac) (pun_nws _ Hp)) as [ln2 E2]. rewrite <- !app_assoc in E2. rewrite E2.
+    unfold ret at 1. unfold skipws, on_str. cbn [str acc]. rewrite a_skipws_nws by now apply pun_nws. eexists. reflexivity.
+Qed.
+
+Lemma term_hd n txt l : term_ok n -> G_term n txt -> nws (txt ++ l).
+Proof.
+  intros Hn (w & _ & ->). unfold nws. destruct Hn as [(c & r & -> & Hc & _) | (b & -> & _)].
+  - cbn [app hd]. unfold is_lower, is_ws in *. lia.
   - reflexivity.
+Qed.
+
+(* ---------- chaining ---------- *)
+Ltac rb H := eapply (reads_bind _ _ _ _ _ _ _ _ _ okS); [apply H | cbv beta iota | ].
+Ltac rb0 H := eapply (reads_bind0 _ _ _ _ _ _ _ _ okS); [apply H | cbv beta iota | ].
+
+Lemma r_emit_ret {A} c (v : A) ok : reads (emit c ;;; ret v) [] v [c] ok.
+Proof. intros tail ln ac _. eexists. reflexivity. Qed.
+
+Lemma r_dot_emit {A} c (v : A) td : G_tok t_dot td -> reads (mtok t_dot true ;;; emit c ;;; ret v) td v [c] okS.
+Proof.
+  intros Gd. eapply reads_eff; [eapply reads_eq; [eapply reads_bind; [apply (r_tok _ _ true Gd) | apply (r_emit_ret c v okS) | intros tail Ht; rewrite app_nil_l; exact (okS_nws _ Ht)] | now rewrite app_nil_r] | reflexivity].
+Qed.
+Lemma r_dot_emit0 c td : G_tok t_dot td -> reads (mtok t_dot true ;;; emit c) td tt [c] okS.
+Proof.
+  intros Gd. eapply reads_eff; [eapply reads_eq; [eapply reads_bind; [apply (r_tok _ _ true Gd) | apply (reads_emit c okS) | intros tail Ht; rewrite app_nil_l; exact (okS_nws _ Ht)] | now rewrite app_nil_r] | reflexivity].
+Qed.
+
+Lemma dot_hd td l : G_tok t_dot td -> hd 0 (td ++ l) = 46.
+Proof. intros G. now rewrite (tok_hd t_dot td l G) by discriminate. Qed.
+Lemma dot_pun td l : G_tok t_dot td -> pun (td ++ l).
+Proof. intros G. unfold pun. rewrite (dot_hd td l G). repeat split; discriminate. Qed.
+
+Lemma print_Z_first v l : (is_digit (hd 0 (print_Z v ++ l)) || (hd 0 (print_Z v ++ l) =? 45)) = true.
+Proof.
+  unfold print_Z. destruct (Z.ltb_spec v 0); [reflexivity|].
+  destruct (print_nat_hd v H) as (d & ds & -> & Hd). cbn [app hd]. now rewrite Hd.
+Qed.
+Lemma int_first v t l : G_int v t -> (is_digit (hd 0 (t ++ l)) || (hd 0 (t ++ l) =? 45)) = true /\ nws (t ++ l).
+Proof. intros (w & _ & ->). rewrite <- app_assoc. split; [apply print_Z_first | apply print_Z_nws]. Qed.
+
+Lemma drop0_nonneg b : Forall (fun x : Z * Z => 0 <= snd x) b -> forallb (fun x => 0 <=? snd x) (drop0 b) = true.
+Proof.
+  unfold drop0. induction 1 as [|x r Hx Hr IH]; [reflexivity|]. cbn [filter]. destruct (negb (snd x =? 0)); [|exact IH].
+  cbn [forallb]. rewrite IH. apply andb_true_iff. split; [lia | reflexivity].
+Qed.
+
+Lemma r_rule_w ht h bd b txt : stmt_ok (CWRule ht h bd b) -> G_stmt (CWRule ht h bd b) txt ->
+  reads (m_rule (hd 0 txt)) txt tt [CWRule ht h bd (drop0 b)] okS.
+Proof.
+  intros (Hht & HPh & Hbd & HPb & Hnn) (th & ti & tn & ta & td & Gh & Gi & Gn & Ga & Gd & ->).
+  assert (Hfirst : (ht = 1 -> hd 0 (th ++ ti ++ tn ++ ta ++ td) = 123) /\ (ht = 0 -> hd 0 (th ++ ti ++ tn ++ ta ++ td) <> 123)).
+  { apply (head_first ht h th _ Hht HPh Gh). intros _ _. now rewrite (tok_hd t_if ti _ Gi) by discriminate. }
+  destruct Hfirst as [F1 F0]. unfold m_rule. fold (m_head (hd 0 (th ++ ti ++ tn ++ ta ++ td))).
+  eapply reads_eff.
+  - eapply (reads_bind _ _ _ _ _ _ _ _ _ okS); [apply (r_head ht h th Hht HPh Gh _ F1 F0) | cbv beta iota | ].
+    2: { intros tail Ht. left. rewrite <- !app_assoc. now rewrite (tok_hd t_if ti _ Gi) by discriminate. }
+    rb (r_tok _ _ false Gi). 2: { intros tail Ht. rewrite <- !app_assoc. apply (int_first bd tn _ Gn). }
+    rewrite (app_assoc tn ta td).
+    eapply (reads_bind _ _ _ _ _ _ _ _ _ okS); [ | cbv beta | ].
+    + apply (reads_bind_peek _ (fun c => (is_digit c || (c =? 45)) = true) (tn ++ ta) (CWRule ht h bd (drop0 b)) [] nws).
+      * intros c Hc. assert (E : negb (is_digit c) && negb (c =? 45) = false) by (destruct (is_digit c), (c =? 45); try reflexivity; discriminate Hc).
+        rewrite E.
+        eapply reads_eff; [eapply reads_bind; [apply (r_int bd tn Hbd Gn) | cbv beta | ] | ].
+        -- eapply reads_eq; [eapply reads_bind; [apply (r_agg b ta HPb Ga) | cbv beta | ] | now rewrite app_nil_r].
+           ++ rewrite (drop0_nonneg b Hnn). eapply (reads_bind0 _ _ [] tt); [apply (reads_require nws) | apply reads_ret | intros tail Ht; exact Ht].
+           ++ intros tail Ht. rewrite app_nil_l. exact Ht.
+        -- intros tail Ht. destruct Ga as (t1 & t2 & t3 & G1 & _ & _ & ->). rewrite <- !app_assoc.
+           apply (tok_pun t_lbrace); [exact G1 | discriminate | repeat split; discriminate].
+        -- reflexivity.
+      * intros tail Ht. rewrite <- app_assoc. apply (int_first bd tn _ Gn).
+    + apply (r_dot_emit0 _ td Gd).
+    + intros tail Ht. apply (tok_nws t_dot); [exact Gd | discriminate | reflexivity].
+  - reflexivity.
+Qed.
+
+(* ---------- directives ---------- *)
+Ltac skipkw kj ki :=
+  eapply (reads_bind0 _ _ _ false _ _ _ _ okS);
+  [apply (reads_tok_mism kj ki); reflexivity | cbv beta iota | intros ? _; cbv beta; rewrite <- ?app_assoc; eexists; reflexivity].
+
+Lemma opt_prio p tp td : in_int p = true -> G_tok t_dot td ->
+  ((p = 0 /\ tp = []) \/ exists t1 t2, G_tok t_at t1 /\ G_int p t2 /\ tp = t1 ++ t2) ->
+  forall {B} (k : Z -> M B) v e, reads (k p) td v e okS ->
+  reads (at_ <- mtok t_at false ;; p <- (if at_ then m_int else ret 0) ;; k p) (tp ++ td) v (e ++ []) okS.
+Proof.
+  intros Hp Gd [[-> ->] | (t1 & t2 & G1 & G2 & ->)] B k v e Hk.
+  - cbn [app]. eapply reads_eff; [rb0 (reads_tok_absent 64 []); [discriminate | | ] | ].
+    + eapply (reads_bind0 _ _ _ 0 _ _ _ _ okS); [apply (reads_ret _ (fun _ => True)) | exact Hk | intros; exact I].
+    + intros tail _. cbv beta. rewrite (dot_hd td tail Gd). discriminate.
+    + now rewrite !app_nil_r.
+  - rewrite <- app_assoc. eapply reads_eff; [rb (r_tok _ _ false G1) | ].
+    + rb (r_int p t2 Hp G2); [exact Hk | intros tail _; now apply dot_pun].
+    + intros tail _. rewrite <- app_assoc. apply (int_first p t2 _ G2).
+    + now rewrite !app_nil_r.
+Qed.
+
+Lemma r_min inc p l txt : stmt_ok (CMin p l) -> G_stmt (CMin p l) txt -> reads (m_directive inc) txt true [CMin p (drop0 l)] okS.
+Proof.
+  intros (Hp & Hl) (t0 & ta & tp & td & G0 & Ga & Gd & -> & Hopt). unfold m_directive.
+  eapply reads_eff; [rb (r_tok _ _ false G0) | ].
+  - rb (r_agg l ta Hl Ga).
+    + apply (opt_prio p tp td Hp Gd Hopt (fun p => mtok t_dot true ;;; emit (CMin p (drop0 l)) ;;; ret true)). apply (r_dot_emit _ true td Gd).
+    + intros tail Ht. destruct Hopt as [[_ ->] | (t1 & t2 & G1 & _ & ->)].
+      * cbn [app]. apply (tok_nws t_dot); [exact Gd | discriminate | reflexivity].
+      * rewrite <- !app_assoc. apply (tok_nws t_at); [exact G1 | discriminate | reflexivity].
+  - intros tail Ht. destruct Ga as (t1 & t2 & t3 & G1 & _ & _ & ->). rewrite <- !app_assoc. apply (tok_nws t_lbrace); [exact G1 | discriminate | reflexivity].
+  - reflexivity.
+Qed.
+
+Lemma G_list0_tok_sep {A} (G : A -> list Z -> Prop) xs txt : G_list0 G (G_tok t_comma) xs txt -> G_list0 G (G_sep t_comma) xs txt.
+Proof.
+  destruct xs as [|x r]; [exact (fun H => H)|]. cbn [G_list0]. apply G_list1_sep_mono. intros t Ht. now apply G_tok_sep.
+Qed.
+
+Lemma r_project inc a txt : stmt_ok (CProject a) -> G_stmt (CProject a) txt -> reads (m_directive inc) txt true [CProject a] okS.
+Proof.
+  intros Ha (t0 & tb & td & (w0 & Hw0 & ->) & Gd & -> & Hb). unfold m_directive. rewrite <- !app_assoc.
+  destruct Hb as [[-> ->] | (t1 & t2 & t3 & G1 & G2 & G3 & ->)].
+  - eapply reads_eff.
+    + skipkw t_minimize t_project.
+      eapply (reads_bind _ _ (t_project ++ w0) _ _ _ _ _ _ okS); [apply (reads_tok t_project w0 false Hw0) | cbv beta iota | ].
+      * cbn [app]. rb0 (reads_tok_absent 123 []); [discriminate | | intros tail _; cbv beta; rewrite (dot_hd td tail Gd); discriminate].
+        eapply (reads_bind0 _ _ _ [] _ _ _ _ okS); [apply (reads_ret _ (fun _ => True)) | apply (r_dot_emit _ true td Gd) | intros; exact I].
+      * intros tail Ht. cbn [app]. apply (tok_nws t_dot); [exact Gd | discriminate | reflexivity].
+    + reflexivity.
+  - eapply reads_eff.
+    + skipkw t_minimize t_project.
+      eapply (reads_bind _ _ (t_project ++ w0) _ _ _ _ _ _ okS); [apply (reads_tok t_project w0 false Hw0) | cbv beta iota | ].
+      * rewrite <- !app_assoc. rb (r_tok _ _ false G1).
+        -- rewrite (app_assoc t2 t3 td).
+           eapply (reads_bind _ _ (t2 ++ t3) _ _ _ _ _ _ okS); [ | apply (r_dot_emit _ true td Gd) | intros tail _; apply (tok_nws t_dot); [exact Gd | discriminate | reflexivity]].
+           eapply reads_eff; [eapply reads_bind; [apply (r_atoms t_comma a t2 sep_ok_comma Ha (G_list0_tok_sep _ _ _ G2)) | cbv beta | ] | ].
+           ++ eapply reads_eq; [eapply reads_bind; [apply (r_tok _ _ true G3) | apply reads_ret | intros tail Ht; rewrite app_nil_l; exact Ht] | now rewrite app_nil_r].
+           ++ intros tail Ht. split; [apply (tok_pun t_rbrace); [exact G3 | discriminate | repeat split; discriminate] | rewrite (tok_hd t_rbrace t3 tail G3) by discriminate; reflexivity].
+           ++ reflexivity.
+        -- intros tail Ht. rewrite <- !app_assoc. destruct a as [|x r].
+           ++ simpl in G2. subst t2. cbn [app]. apply (tok_nws t_rbrace); [exact G3 | discriminate | reflexivity].
+           ++ unfold nws. apply lower_nws. apply (atoms_hd t_comma (x :: r)); [exact Ha | exact (G_list0_tok_sep _ _ _ G2) | discriminate].
+      * intros tail Ht. rewrite <- !app_assoc. apply (tok_nws t_lbrace); [exact G1 | discriminate | reflexivity].
+    + reflexivity.
+Qed.
+
+Lemma cond_first c tc td l : Forall lit_ok c -> G_cond c tc -> G_tok t_dot td ->
+  pun ((tc ++ td) ++ l) /\ (hd 0 ((tc ++ td) ++ l) = 58 \/ hd 0 ((tc ++ td) ++ l) = 46).
+Proof.
+  intros Hc [[_ ->] | (t1 & t2 & G1 & _ & ->)] Gd.
+  - cbn [app]. split; [now apply dot_pun | right; now apply dot_hd].
+  - rewrite <- !app_assoc. split; [apply (tok_pun t_colon); [exact G1 | discriminate | repeat split; discriminate] | left; now rewrite (tok_hd t_colon t1 _ G1) by discriminate].
+Qed.
+
+Lemma r_cond_dot {A} c tc td (k : list Z -> M A) v e : Forall lit_ok c -> G_cond c tc -> G_tok t_dot td ->
+  reads (k c) td v e okS -> reads (x <- m_cond ;; k x) (tc ++ td) v (e ++ []) okS.
+Proof.
+  intros Hc Gc Gd Hk. eapply (reads_bind _ _ _ _ _ _ _ _ _ okS); [apply (r_cond c tc Hc Gc) | exact Hk | ].
+  intros tail _. split; [now apply dot_pun | rewrite (dot_hd td tail Gd); split; discriminate].
+Qed.
+
+Lemma r_output inc n c txt : stmt_ok (COutput n c) -> G_stmt (COutput n c) txt -> reads (m_directive inc) txt true [COutput n c] okS.
+Proof.
+  intros (Hn & Hc) (w0 & tt0 & tc & td & Hw0 & Gt & Gc & Gd & ->). unfold m_directive.
+  eapply reads_eff.
+  - skipkw t_minimize t_output. skipkw t_project t_output.
+    eapply (reads_bind _ _ (t_output ++ w0) _ _ _ _ _ _ okS); [apply (reads_tok t_output w0 false Hw0) | cbv beta iota | ].
+    + rb (r_term n tt0 Hn Gt).
+      * apply (r_cond_dot c tc td (fun c => mtok t_dot true ;;; emit (COutput n c) ;;; ret true)); try assumption. apply (r_dot_emit _ true td Gd).
+      * intros tail _. destruct (cond_first c tc td tail Hc Gc Gd) as [P [E|E]]; (split; [exact P | rewrite E; discriminate]).
+    + intros tail _. rewrite <- !app_assoc. apply (term_hd n tt0 _ Hn Gt).
+  - reflexivity.
+Qed.
+
+Lemma atom_pun_first a ta l : atom_ok a -> G_atom a ta -> nws (ta ++ l).
+Proof.
+  intros Ha G. destruct (atom_text_hd a ta G ltac:(unfold atom_ok in Ha; lia)) as (c & r & -> & Hc & _).
+  unfold nws. cbn [app hd]. now apply lower_nws.
+Qed.
+
+Lemma r_external inc a v txt : stmt_ok (CExternal a v) -> G_stmt (CExternal a v) txt -> reads (m_directive inc) txt true [CExternal a v] okS.
+Proof.
+  intros (Ha & Hv) (t0 & ta & td & tv & (w0 & Hw0 & ->) & Ga & Gd & -> & Hopt). unfold m_directive. rewrite <- !app_assoc.
+  destruct Hopt as [[-> ->] | (t1 & t2 & t3 & name & G1 & G2 & G3 & -> & Hname)].
+  - rewrite app_nil_r. eapply reads_eff.
+    + skipkw t_minimize t_external. skipkw t_project t_external. skipkw t_output t_external.
+      eapply (reads_bind _ _ (t_external ++ w0) _ _ _ _ _ _ okS); [apply (reads_tok t_external w0 false Hw0) | cbv beta iota | ].
+      * rb (r_atom a ta Ha Ga); [ | intros tail _; now apply dot_pun].
+        eapply reads_eq; [rb (r_tok _ _ true Gd) | now rewrite app_nil_r].
+        -- rb0 (reads_tok_absent 91 []); [discriminate | | intros tail (_ & H); cbv beta; rewrite app_nil_l; congruence].
+           eapply (reads_bind0 _ _ _ ext_false _ _ _ _ okS); [apply (reads_ret _ (fun _ => True)) | apply (r_emit_ret _ true okS) | intros; exact I].
+        -- intros tail Ht. rewrite app_nil_l. exact (okS_nws _ Ht).
+      * intros tail _. rewrite <- !app_assoc. apply (atom_pun_first a ta _ Ha Ga).
+    + reflexivity.
+  - destruct G2 as (w2 & Hw2 & ->).
+    assert (Hk : reads (k <- m_kw ext_tab ;; v0 <- (match k with Some v0 => ret v0 | None => mtok t_false true ;;; ret ext_false end) ;; mtok t_rbrack true ;;; ret v0)
+                   ((name ++ w2) ++ t3) v [] okS).
+    { destruct Hname as [Hin | [-> ->]].
+      - assert (Hf : kw_first ext_tab name v = true).
+        { cbn in Hin. destruct Hin as [E|[E|[E|[]]]]; inversion E; subst; reflexivity. }
+        eapply reads_eff.
+        + rb (r_kw ext_tab name v w2 Hf Hw2).
+          * rb0 (reads_ret v (fun _ => True)); [ | intros; exact I].
+            eapply reads_eq; [rb (r_tok _ _ true G3); [apply reads_ret | intros tail Ht; rewrite app_nil_l; exact (okS_nws _ Ht)] | now rewrite app_nil_r].
+          * intros tail _. apply (tok_nws t_rbrack); [exact G3 | discriminate | reflexivity].
+        + reflexivity.
+      - eapply reads_eff.
+        + rb0 (r_kw_none ext_tab t_false eq_refl).
+          * eapply (reads_bind _ _ (t_false ++ w2) _ _ _ _ _ _ okS).
+            -- eapply reads_eq; [eapply reads_bind; [apply (reads_tok t_false w2 true Hw2) | apply reads_ret | intros tail Ht; rewrite app_nil_l; exact Ht] | now rewrite app_nil_r].
+            -- cbv beta. eapply reads_eq; [rb (r_tok _ _ true G3); [apply reads_ret | intros tail Ht; rewrite app_nil_l; exact (okS_nws _ Ht)] | now rewrite app_nil_r].
+            -- intros tail _. apply (tok_nws t_rbrack); [exact G3 | discriminate | reflexivity].
+          * intros tail _. cbv beta. rewrite <- !app_assoc. eexists. reflexivity.
+        + reflexivity. }
+    eapply reads_eff.
+    + skipkw t_minimize t_external. skipkw t_project t_external. skipkw t_output t_external.
+      eapply (reads_bind _ _ (t_external ++ w0) _ _ _ _ _ _ okS); [apply (reads_tok t_external w0 false Hw0) | cbv beta iota | ].
+      * rb (r_atom a ta Ha Ga); [ | intros tail _; now apply dot_pun].
+        rb (r_tok _ _ true Gd); [ | intros tail _; rewrite <- !app_assoc; apply (tok_nws t_lbrack); [exact G1 | discriminate | reflexivity]].
+        rb (r_tok _ _ false G1); [ | intros tail _; rewrite <- !app_assoc; destruct Hname as [Hin | [_ ->]]; [cbn in Hin; destruct Hin as [E|[E|[E|[]]]]; inversion E; subst; reflexivity | reflexivity]].
+        eapply (reads_bind _ _ ((name ++ w2) ++ t3) [] _ _ _ _ _ okS); [exact Hk | apply (r_emit_ret _ true okS) | intros tail Ht; rewrite app_nil_l; exact Ht].
+      * intros tail _. rewrite <- !app_assoc. apply (atom_pun_first a ta _ Ha Ga).
+    + reflexivity.
 Qed.
